@@ -112,3 +112,82 @@ def descr_diff(m, i):
         if len(m["trans"]) != len(i["trans"]) or not all(num_close(a, b) for a, b in zip(m["trans"], i["trans"])):
             d.append("trans")
     return d
+
+
+# ------------------------------------------------------------------------------------------
+# token layer
+import re as _re
+
+_valid_cache = {}
+
+
+def valid_bracket_atoms(text):
+    """oracle data for the model: which bracket substrings of [text] RDKit accepts as exactly one atom (gbigsmiles.atom.Atom)"""
+    from gbigsmiles.atom import Atom
+
+    out = []
+    for m in set(_re.findall(r"\[[^\]]*\]", text)):
+        if m not in _valid_cache:
+            try:
+                Atom(m)
+                _valid_cache[m] = True
+            except Exception:
+                _valid_cache[m] = False
+        if _valid_cache[m]:
+            out.append(m)
+    return out
+
+
+def token_line(text, off=0):
+    return "\t".join(["token", fw.hx(text), str(off), ",".join(fw.hx(v) for v in valid_bracket_atoms(text))])
+
+
+def parse_model_token(line):
+    if line.startswith("ERR "):
+        return ("ERR", line[4:])
+    if not line.startswith("OK "):
+        return ("BAD", line)
+    f = line[3:].split(" ")
+    els = []
+    for e in (f[0].split(",") if f[0] else []):
+        k, h = e.split(":")
+        els.append((k, fw.unhx(h)))
+    bds = [parse_model_descr("OK " + b) for b in f[2].split(";")] if f[2] else []
+    fk, fv = f[5].split(":")
+    return {"elements": els, "natoms": int(f[1]), "bds": bds, "str_ext": fw.unhx(f[3]), "str_noext": fw.unhx(f[4]),
+            "fragment": fw.unhx(fv) if fk == "OK" else ("ERR", fv), "generable": f[6] == "T"}
+
+
+def impl_token(text, off=0):
+    from gbigsmiles.atom import Atom
+    from gbigsmiles.bond import BondDescriptor
+    from gbigsmiles.token import SmilesToken
+
+    try:
+        with fw.time_limit(5):
+            t = SmilesToken(text, off, 0)
+    except Exception as e:  # noqa
+        return ("ERR", fw.exc_class(e))
+    els = [("s", e) if isinstance(e, str) else ("b", e.generate_string(True)) if isinstance(e, BondDescriptor) else ("a", e._raw_text) for e in t.elements]
+    try:
+        frag = t.generate_smiles_fragment()
+    except Exception as e:  # noqa
+        frag = ("ERR", fw.exc_class(e))
+    return {"elements": els, "natoms": len(t.atoms), "bds": [impl_descr_obj(b) for b in t.bond_descriptors], "str_ext": t.generate_string(True),
+            "str_noext": t.generate_string(False), "fragment": frag, "generable": bool(t.generable)}
+
+
+def token_diff(m, i):
+    if isinstance(m, tuple) or isinstance(i, tuple):
+        if isinstance(m, tuple) and isinstance(i, tuple):
+            return [] if (m[0] == i[0] == "ERR" and m[1] == i[1]) else ["error class"]
+        return ["error vs object"]
+    d = [k for k in ("elements", "natoms", "str_ext", "str_noext", "fragment", "generable") if m[k] != i[k]]
+    if len(m["bds"]) != len(i["bds"]):
+        d.append("number of descriptors")
+    else:
+        for n, (a, b) in enumerate(zip(m["bds"], i["bds"])):
+            dd = descr_diff(a, b)
+            if dd:
+                d.append(f"descriptor {n}: " + ",".join(dd))
+    return d
